@@ -661,6 +661,16 @@ static void op_map(int argc, char ** argv)
         outf("r=%d it=", r);
         print_iter(&it, 1, r == 0);
         outf(" log=[%s]", mlog);
+    } else if (!strcmp(o, "erasen") && argc == 3) {
+        /* erase without asking for the removed entry's pointers (iterator argument NULL) */
+        int r;
+        probe = (int)h_int(argv[2]);
+        h_alloc_plan("");
+        h_alloc_arm(1);
+        r = cstl_map_erase(&map, probe == 0 ? NULL : &probe, NULL);
+        h_alloc_arm(0);
+        mlog_alloc();
+        outf("r=%d it=- log=[%s]", r, mlog);
     } else if (!strcmp(o, "eraseit") && argc == 3) {
         cstl_map_iterator_t it;
         probe = (int)h_int(argv[2]);
